@@ -1586,6 +1586,14 @@ func vfc17Directed() []*c17Scenario {
 				Conns: []c17ConnScript{{OpenStyle: "plain", Fault: "drop-after-bytes", K: 19 + len(big)*52 - 5, RST: true}, {OpenStyle: "plain", Fault: "drop-after-msgs", K: 2 + len(big), RST: true}, {OpenStyle: "plain"}},
 				Ops:   []c17Op{{Gap: "none", Kind: "directed", Routes: big}, {Gap: "none", Kind: "directed", Routes: nil}, {Gap: "yield", Kind: "directed", Routes: big}, {Gap: "none", Kind: "directed", Routes: big[:1]}}}
 		}(),
+		// the peer accepts the OPEN and hangs up at once, several times in a row: the connection may be
+		// gone before the sender has started on it
+		{Class: "normal", MyASN: 64512, PeerASN: 64513, PeerAS4: true, HoldS: 90, PeerHoldS: 90,
+			Conns: []c17ConnScript{{OpenStyle: "plain", Fault: "drop-after-msgs", K: 0, RST: true}, {OpenStyle: "plain", Fault: "drop-after-msgs", K: 0}, {OpenStyle: "plain", Fault: "drop-after-msgs", K: 0, RST: true}, {OpenStyle: "plain", Fault: "drop-after-msgs", K: 0}, {OpenStyle: "plain", Fault: "drop-after-msgs", K: 0, RST: true}, {OpenStyle: "plain"}},
+			Ops:   []c17Op{set(routes...)}},
+		{Class: "normal", MyASN: 64512, PeerASN: 64512, PeerAS4: true, HoldS: 3, PeerHoldS: 3,
+			Conns: []c17ConnScript{{OpenStyle: "cap-wins", Fault: "drop-after-msgs", K: 0}, {OpenStyle: "plain", Fault: "drop-after-msgs", K: 0, RST: true}, {OpenStyle: "plain", Fault: "drop-after-msgs", K: 0}, {OpenStyle: "plain", Fault: "drop-after-msgs", K: 0, RST: true}, {OpenStyle: "plain"}},
+			Ops:   []c17Op{{Gap: "sleep", GapMs: 40, Kind: "directed", Routes: routes}, set(routes[0])}},
 		// the session is bound to a configured source address
 		{Class: "normal", MyASN: 64512, PeerASN: 64513, PeerAS4: true, HoldS: 90, PeerHoldS: 90, SourceAddr: true, Ops: []c17Op{set(routes...), set(routes[0])}},
 		{Class: "normal", MyASN: 64512, PeerASN: 64512, PeerAS4: false, HoldS: 90, PeerHoldS: 30, SourceAddr: true, Ops: []c17Op{set(routes...)}},
